@@ -21,7 +21,10 @@ def verdict (args : List String) : Option String := do
       else some "ok"
     | .error e =>
       -- classify: is the unminimized automaton already in the known shared-final-state class?
-      let tag := match LRRef.phiWalk g t with
+      -- (only a mismatch of the kind that class causes — a state that is final for one input is
+      -- merged with a state another input passes through — is attributed to it)
+      let tag := if (e.splitOn "final state is").length ≤ 1 then "" else
+        match LRRef.phiWalk g t with
         | .error m => if (m.splitOn "[C01-shared-final-state]").length > 1 then " [C01-shared-final-state]" else ""
         | .ok _ => ""
       some s!"mismatch {e}{tag}"
